@@ -10,6 +10,7 @@ mod c23;
 mod c25;
 mod c26;
 mod c28;
+mod c29;
 mod c34;
 
 fn main() {
@@ -36,6 +37,7 @@ fn main() {
         "c26-replay" => c26::replay(rest),
         "c26-selfcheck" => c26::selfcheck(rest),
         "c28-run" => c28::run(rest),
+        "c29-replay" => c29::replay(rest),
         "c34-replay" => c34::replay(rest),
         _ => {
             eprintln!("unknown command {cmd}");
